@@ -117,7 +117,7 @@ def bkey(b):
     return (b["tb"], "+".join(sorted(b["st"])), tuple(tuple(w) for w in b["argv"]))
 
 
-def run_cfg(ctx, exe, cfg, state):
+def run_cfg(ctx, exe, cfg, state, module="MC_OptParse.tla", specdir=None, vacuity=True):
     raw = []        # behaviours as compact JSON text (hundreds of thousands in the thorough tier)
     hdrs = []
 
@@ -127,20 +127,21 @@ def run_cfg(ctx, exe, cfg, state):
         else:
             raw.append(json.dumps(d, separators=(",", ":")))
     workers = min(4, int(os.environ.get("VERIF_JOBS", "4")))
-    res = run_tlc("MC_OptParse.tla", cfg, ctx.rundir, on_edge=on_line, workers=workers, timeout=3000, heap="8g")
+    kw = {"specdir": specdir} if specdir else {}
+    res = run_tlc(module, cfg, ctx.rundir, on_edge=on_line, workers=workers, timeout=3000, heap="8g", **kw)
     nb = len(raw)
     ctx.add("states", res.distinct)
     ctx.add("transitions", res.generated)
     ctx.add("behaviours_emitted", nb)
     acts = {a: list(v) for a, v in sorted(res.coverage.items()) if a.startswith("Op")}
-    ctx.cov.setdefault("tlc_runs", []).append({"module": "MC_OptParse.tla", "cfg": cfg, "distinct_states": res.distinct,
+    ctx.cov.setdefault("tlc_runs", []).append({"module": module, "cfg": cfg, "distinct_states": res.distinct,
                                                "states_generated": res.generated, "depth": res.depth, "behaviours": nb,
                                                "wall_s": round(res.wall, 1), "actions": acts})
     if not res.ok:
         ctx.report("spec:%s" % cfg, "TLC reports a violated property of the specification itself: %s" % (res.violation or "")[:600],
                    {"tlc": res.violation, "cfg": cfg})
     for a, (d, g) in res.coverage.items():
-        if a.startswith("Op"):
+        if a.startswith("Op") and vacuity:
             state["taken"][a] = state["taken"].get(a, 0) + g
     if not hdrs or not nb:
         raise Broken("TLC emitted no header/behaviours for %s" % cfg)
@@ -221,6 +222,38 @@ def run_cfg(ctx, exe, cfg, state):
     return hdr
 
 
+def long_vectors(ctx, exe, state):
+    """Beyond the exhaustive bound: seeded random vectors of 4-8 words over the full alphabet.  TLC still computes the
+    expectation of every one of them (Init chooses from the sampled set instead of from all bounded vectors)."""
+    import random, shutil
+    from vlib.tlc import SPEC
+    rnd = random.Random(ctx.seed)
+    n, lo, hi = (400, 4, 6) if ctx.tier == "quick" else (6000, 5, 8)
+    ntok = len(state["hdr"]["toktext"])
+    plain = [k + 1 for k, w in enumerate(state["hdr"]["toktext"]) if w and w[0] != 45]
+    vecs = set()
+    while len(vecs) < n:
+        ln = rnd.randint(lo, hi)
+        vecs.add(tuple(rnd.choice(plain) if rnd.random() < 0.35 else rnd.randint(1, ntok) for _ in range(ln)))
+    d = os.path.join(ctx.rundir, "spec-long")
+    os.makedirs(d, exist_ok=True)
+    for f in ("OptParse.tla", "MC_OptParse.tla"):
+        shutil.copy(os.path.join(SPEC, f), d)
+    with open(os.path.join(d, "MC_OptParseLong.tla"), "w") as f:
+        f.write("---- MODULE MC_OptParseLong ----\nEXTENDS MC_OptParse\nSampled == {\n")
+        f.write(",\n".join("<<%s>>" % ", ".join(str(t) for t in v) for v in sorted(vecs)))
+        f.write("\n}\nArgvsSampled(t) == Sampled\n====\n")
+    cfg = open(os.path.join(SPEC, "OptParse_quick.cfg")).read()
+    cfg = cfg.replace("TokSets <- TokCore", "TokSets <- TokFull").replace("MaxArgs = 3", "MaxArgs = %d" % hi)
+    cfg = cfg.replace("Argvs <- ArgvsBounded", "Argvs <- ArgvsSampled")
+    if "ArgvsSampled" not in cfg or "TokFull" not in cfg:
+        raise Broken("cannot derive the sampled-vector cfg from OptParse_quick.cfg")
+    with open(os.path.join(d, "OptParse_long.cfg"), "w") as f:
+        f.write(cfg)
+    run_cfg(ctx, exe, "OptParse_long.cfg", state, module="MC_OptParseLong.tla", specdir=d, vacuity=False)
+    ctx.add("sampled_long_vectors", len(vecs))
+
+
 def has_mismatch(verdicts, key, v):
     w = verdicts.get(key)
     return w is not None and any(x[0] == v[0] and x[1] == v[1] and x[2] == v[2] for x in w[0])
@@ -247,6 +280,7 @@ def run(ctx):
     state = {"seen": set(), "verdicts": {}, "taken": {}}
     for cfg in CFGS[ctx.tier]:
         state["hdr"] = run_cfg(ctx, exe, cfg, state)
+    long_vectors(ctx, exe, state)
     unt = sorted(a for a, n in state["taken"].items() if n == 0)
     if unt or len(state["taken"]) < 20:
         raise Broken("vacuity: actions never taken in any scope of this tier: %s (%d actions seen)" % (unt, len(state["taken"])))
